@@ -17,6 +17,7 @@ import (
 	"fmt"
 	"os"
 	"runtime"
+	"runtime/debug"
 	"sort"
 	"strings"
 	"sync"
@@ -82,6 +83,7 @@ type c12IsoRun struct {
 	streams   map[int][][]byte // record index -> per output stream
 	routedTo  map[int]string   // record index -> pipeline id
 	tags      map[string]string
+	tagsLive  map[string]string // the tag strings exactly as handed to the pipeline (not copied): what serializers and chunk makers keep
 	unknown   int
 	pipelines int
 }
@@ -158,6 +160,13 @@ func c12RunIso(c *Case) (out string, fails []Fail) {
 	variant, nConn, gcEvery, seed := int(c.Z[0]), int(c.Z[1]), int(c.Z[2]), uint64(c.Z[3])
 	out = fmt.Sprintf("iso:%d", variant)
 	logger.SetLogLevel(logger.FatalLevel)
+	if gcEvery == 0 {
+		// one P, no collection: a buffer released by a worker is handed to the next record of its size class at once
+		oldP := runtime.GOMAXPROCS(1)
+		defer runtime.GOMAXPROCS(oldP)
+		oldGC := debug.SetGCPercent(-1)
+		defer debug.SetGCPercent(oldGC)
+	}
 	yaml, err := c12IsoYAML(variant)
 	if err != nil {
 		return out, []Fail{{"c12:harness-config", err.Error()}}
@@ -177,7 +186,7 @@ func c12RunIso(c *Case) (out string, fails []Fail) {
 	alloc := base.NewLogAllocator(schema, nOut)
 	c12isoSeq++
 	mf := promreg.NewMetricFactory(fmt.Sprintf("c12iso%d_", c12isoSeq), nil, nil)
-	state := &c12IsoRun{byPtr: map[*base.LogRecord]int{}, streams: map[int][][]byte{}, routedTo: map[int]string{}, tags: map[string]string{}}
+	state := &c12IsoRun{byPtr: map[*base.LogRecord]int{}, streams: map[int][][]byte{}, routedTo: map[int]string{}, tags: map[string]string{}, tagsLive: map[string]string{}}
 	metricKeyLocs := schema.MustCreateFieldLocators(conf.MetricKeys)
 	names := make([]string, nOut)
 	for i, p := range conf.OutputBuffersPairs {
@@ -186,6 +195,7 @@ func c12RunIso(c *Case) (out string, fails []Fail) {
 	starter := func(plog logger.Logger, metricCreator promreg.MetricCreator, input <-chan []*base.LogRecord, bufferID string, outputTag string, onStopped func()) {
 		state.Lock()
 		state.tags[bufferID] = strings.Clone(outputTag)
+		state.tagsLive[bufferID] = outputTag
 		state.pipelines++
 		state.Unlock()
 		procCounter := base.NewLogProcessCounter(metricCreator, schema, metricKeyLocs, names)
@@ -384,7 +394,52 @@ func c12RunIso(c *Case) (out string, fails []Fail) {
 			add("key_"+k, metas[i].mkeys[j])
 		}
 	}
-	if mfs, gerr := mf.Gather(); gerr == nil {
+	mfs, gerr := mf.Gather()
+	if gerr != nil {
+		fails = append(fails, Fail{"c12:metric-label", fmt.Sprintf("the metric registry no longer gathers (label values changed after registration?): %v: %s", gerr, desc)})
+	}
+	// per key set: the number of records counted as passed is the number of records that have exactly these keys
+	if variant == 3 && gerr == nil {
+		want := map[string]int{}
+		for i := range inputs {
+			if !metas[i].nilParse {
+				want[strings.Join(metas[i].keys, "\x00")+"\x01"+strings.Join(metas[i].mkeys, "\x00")]++
+			}
+		}
+		got := map[string]int{}
+		for _, fam := range mfs {
+			if !strings.HasSuffix(fam.GetName(), "process_passed_records_total") {
+				continue
+			}
+			for _, m := range fam.Metric {
+				lv := map[string]string{}
+				for _, lp := range m.Label {
+					lv[lp.GetName()] = lp.GetValue()
+				}
+				var ks, ms []string
+				for _, k := range ocfg.Keys {
+					ks = append(ks, lv["key_"+k])
+				}
+				for _, k := range conf.MetricKeys {
+					ms = append(ms, lv["key_"+k])
+				}
+				got[strings.Join(ks, "\x00")+"\x01"+strings.Join(ms, "\x00")] += int(m.GetCounter().GetValue())
+			}
+		}
+		for k, n := range want {
+			if got[k] != n {
+				fails = append(fails, Fail{"c12:metric-label", fmt.Sprintf("%d records have the key set %q but the passed-records counter with these labels shows %d: %s", n, strings.NewReplacer("\x00", ",", "\x01", " | ").Replace(k), got[k], desc)})
+				break
+			}
+		}
+		for k, n := range got {
+			if want[k] == 0 && n > 0 {
+				fails = append(fails, Fail{"c12:metric-label", fmt.Sprintf("the passed-records counter has labels %q which no record has: %s", strings.NewReplacer("\x00", ",", "\x01", " | ").Replace(k), desc)})
+				break
+			}
+		}
+	}
+	if gerr == nil {
 		for _, fam := range mfs {
 			for _, m := range fam.Metric {
 				for _, lp := range m.Label {
@@ -399,6 +454,12 @@ func c12RunIso(c *Case) (out string, fails []Fail) {
 			if len(fails) > 4 {
 				break
 			}
+		}
+	}
+	for id, t := range state.tagsLive {
+		if t != state.tags[id] {
+			fails = append(fails, Fail{"c12:tag", fmt.Sprintf("the tag of pipeline %q was %q when the pipeline was created and reads %q at the end (it shares memory with a record): %s", id, state.tags[id], t, desc)})
+			break
 		}
 	}
 	ids := make([]string, 0, len(state.tags))
